@@ -225,7 +225,7 @@ func (s *rsScript) step() {
 // ---------- directed histories: one per hazard of the persistence path ----------
 
 func (s *rsScript) sub(c *rsClient, filter string, qos byte) {
-	s.note("subscribe id=%q %q qos=%d", c.id, filter, qos)
+	s.note("subscribe id=%.40q %q qos=%d", c.id, filter, qos)
 	s.b.send(c, packets.Packet{FixedHeader: packets.FixedHeader{Type: packets.Subscribe, Qos: 1}, PacketID: c.pid(),
 		Filters: packets.Subscriptions{{Filter: filter, Qos: qos}}})
 }
@@ -261,7 +261,7 @@ func (s *rsScript) tick(kind string, dt int64) {
 }
 
 func (s *rsScript) conn(o rsConnect) *rsClient {
-	s.note("connect id=%q v%d clean=%v sei=%d/%v will=%v/%d", o.id, o.ver, o.clean, o.sei, o.seiFlag, o.will, o.willDly)
+	s.note("connect id=%.40q v%d clean=%v sei=%d/%v will=%v/%d", o.id, o.ver, o.clean, o.sei, o.seiFlag, o.will, o.willDly)
 	return s.b.connect(o)
 }
 
@@ -330,6 +330,11 @@ var directed = []func(s *rsScript){
 		<-c.done
 		w := s.conn(rsConnect{id: "w", ver: 5, sei: 500, seiFlag: true, will: true, willDly: 5, willRet: true})
 		s.drop(w)
+	},
+	// a client id longer than bbolt's largest key (32768 bytes with the "CL_" prefix)
+	func(s *rsScript) {
+		c := s.conn(rsConnect{id: strings.Repeat("k", 32766), ver: 4})
+		s.sub(c, "a/b", 1)
 	},
 	// retained: set, replace, clear with an empty payload, expire
 	func(s *rsScript) {
